@@ -202,6 +202,9 @@ structure DS where
   sys : Sys := Sys.default
   tbl : List Dig := []
   j : JState := {}
+  /-- sticky for the rest of the case: a `fresh`-kind store held one command twice at some point
+      (the model's later recovery may remove the duplicate, MessageDB's overwritten index stays) -/
+  noCompare : Bool := false
 
 def hasDupCmd : List PRec → Bool
   | [] => false
@@ -219,10 +222,11 @@ def replStep (judge : JState → Op → Obs → String) (st : DS) (opLine impl :
   | some o =>
     let (sys, res) := step st.sys o
     let (tbl, out) := renderAll st.tbl sys res
-    let out := if st.sys.indexCorrupted then "-" else out
-    if impl == "bad-op" then ({ st with sys := sys, tbl := tbl }, out, "ok") else
+    let nc := st.noCompare || st.sys.indexCorrupted
+    let out := if nc then "-" else out
+    if impl == "bad-op" then ({ st with sys := sys, tbl := tbl, noCompare := nc }, out, "ok") else
     let cur := parseObs impl
     let verdict := if !cur.wellFormed then "viol:unparseable-output" else judge st.j o cur
-    ({ sys := sys, tbl := tbl, j := st.j.update o cur }, out, verdict)
+    ({ sys := sys, tbl := tbl, j := st.j.update o cur, noCompare := nc }, out, verdict)
 
 end WK.Repl
